@@ -59,11 +59,11 @@ CHECKS = {
    note="trusted: reader; page starts are taken from the parsed output (first data row of each page)"),
  "C14": dict(cat="exploration", ref="5/C14",
    technique="runtime monitoring: offline checker over recorded encode histories, each run in a forked child, against fresh-interpreter baselines",
-   text="Histories of prior operations (construct / encode / encode twice / failing encode) over a 16-document pool, with and without sharing equal-valued component objects, are executed on the real library; the target's string must equal the string a fresh interpreter produces for the same spec, a second encode must equal the first, DataFrames must be unchanged and the colour context empty after every encode. All histories of length <=1 (quick) / <=2 (thorough) are enumerated, longer ones sampled.",
+   text="Histories of prior operations (construct / encode / encode twice / failing encode) over a pool of ~30 documents (incl. near twins: the same attribute values under other palettes / sizes), with and without sharing equal-valued component objects, are executed on the real library; the target's string must equal the string a fresh interpreter produces for the same spec, a second encode must equal the first, DataFrames must be unchanged and the colour context empty after every encode. All histories of length <=1 (quick) / <=2 (thorough) are enumerated, longer ones sampled. A second family of histories builds and encodes the target object with OTHER texts, then edits its text components in place (nested attribute assignment) to the pool values and encodes again - the result must again equal the fresh-interpreter string, so nothing may be memoised on the document or its components.",
    note="trusted: a fresh `python -c` interpreter as the reference; os.fork isolation of histories (watchdog -> inconclusive)"),
  "C15": dict(cat="exploration", ref="5/C15",
    technique="runtime monitoring under a deterministic sys.monitoring baton scheduler: systematic enumeration of single-preemption thread schedules at library call boundaries, sampled deeper schedules",
-   text="Threads encode different coloured documents under a scheduler that preempts a thread at a chosen library function-call boundary and hands the baton to a chosen thread; every single-preemption schedule of the listed document pairs is executed (both directions), plus sampled schedules with 2-4 preemptions and 3 threads. Each thread's string must equal its solo string. Evidence reports schedules run, preemptions actually taken, distinct preemption sites and distinct interleavings of the colour-state operations observed.",
+   text="Threads encode different coloured documents under a scheduler that preempts a thread at a chosen library function-call boundary and hands the baton to a chosen thread; every single-preemption schedule of the listed document pairs is executed (both directions), plus sampled schedules with 2-4 preemptions and 3 threads. Each thread's string must equal its solo string. Evidence reports schedules run, preemptions actually taken, distinct preemption sites and distinct interleavings of the colour-state operations observed. Two-preemption schedules are additionally enumerated on a grid (denser early in the encode, where the shared colour state is set up), and every pair is also started cold in fresh interpreters.",
    note="granularity: Python function entries inside src/rtflite; one preemption exhaustive, more sampled; CPython 3.12 sys.monitoring trusted"),
  "C16": dict(cat="exploration", ref="5/C16",
    technique="runtime monitoring: picture destinations of the parsed output compared with the generated image files",
@@ -75,7 +75,7 @@ CHECKS = {
    note="trusted: reader; page signature = ordered block kinds, texts, cell boundaries, picture hashes"),
  "C18": dict(cat="fault_enumeration", ref="5/C18",
    technique="runtime monitoring with fault injection: sys.monitoring failpoint at every library call boundary of each export, converter stubs, file-system snapshots and audit-hook trace as oracle",
-   text="For each listed (exporter, document, target state) the number N of library function entries of a clean export is measured and the export is re-run N times with an exception injected at boundary k=1..N; converter stubs fail before/after writing or return malformed results; after every run the target directory and a private TMPDIR are snapshotted (names, sizes, SHA-256) and compared with the all-or-nothing rule, the audit trace is checked for a write-open of the target before rtf_encode returned, and on success the target must hold exactly the inner rtf_encode string / the stub's bytes.",
+   text="For each listed (exporter, document, target state) the number N of library function entries of a clean export is measured and the export is re-run N times with an exception injected at boundary k=1..N; converter stubs fail before/after writing or return malformed results; after every run the target directory and a private TMPDIR are snapshotted (names, sizes, SHA-256) and compared with the all-or-nothing rule, the audit trace is checked for a write-open of the target before rtf_encode returned, and on success the target must hold exactly the inner rtf_encode string / the stub's bytes. Target file names include glob/regex/shell metacharacters, blanks, several dots and non-ASCII; the real LibreOfficeConverter is also driven against a fake soffice executable.",
    note="one fault per run; faults are Python exceptions at function entries inside src/rtflite (not I/O errors inside the standard library); LibreOffice replaced by stubs"),
  "C19": dict(cat="exploration", ref="5/C19",
    technique="runtime monitoring: exception class observed at the real constructors for generated invalid configurations",
